@@ -7,7 +7,7 @@ def _job(i, dt):
     return ("result", i)
 
 
-def _run(n, workers, seed, as_dict):
+def _run(n, workers, seed, as_dict, slow_first=False):
     import importlib
 
     P = importlib.import_module("accelforge.util.parallel")
@@ -15,6 +15,10 @@ def _run(n, workers, seed, as_dict):
 
     rnd = random.Random(seed)
     dts = [rnd.choice([0, 0, 0.001, 0.004, 0.01]) for _ in range(n)]
+    if slow_first and n:
+        # adversarial schedule that does not depend on machine load: the first job outlasts all
+        # the others by far, so with >= 2 workers the completion order differs from the job order
+        dts = [0.4] + [0.0] * (n - 1)
     if as_dict:
         keys = [f"k{rnd.randint(0, 10**6)}_{i}" for i in range(n)]
         rnd.shuffle(keys)
@@ -31,8 +35,10 @@ def _run(n, workers, seed, as_dict):
 
 def _sweep(cases):
     ev = 0
-    for n, w, seed, d in cases:
-        ok, info = _run(n, w, seed, d)
+    for n, w, seed, d, *rest in cases:
+        ok, info = _run(n, w, seed, d, *rest)
+        if rest:
+            info["schedule"] = "first job sleeps 0.4 s, the others 0"
         ev += 1
         if not ok:
             return ev, info
@@ -46,6 +52,7 @@ def witness(p):
 def replay(p):
     seed = p.get("seed", 0)
     cases = [(n, w, seed + n, d) for d in (False, True) for w in (1, 2, 3) for n in (0, 1, 2, 3, 5, 8)]
+    cases += [(n, w, seed + n, d, True) for d in (False, True) for w in (2, 3) for n in (2, 3, 5)]
     ev, bad = _sweep(cases)
     if bad:
         return {"failed": True, "input": bad, "observed": bad["observed"], "required": bad["required"]}
@@ -58,7 +65,9 @@ def crosscheck(p):
     ns = [0, 1, 2, 3, 7] if budget <= 200 else [0, 1, 2, 3, 5, 9, 17, 33, 64]
     ws = [1, 2, 4] if budget <= 200 else [1, 2, 3, 5, 8, 16]
     cases = [(n, w, rnd.randint(0, 10**6), d) for d in (False, True) for w in ws for n in ns]
+    # after the random cases (worker pools are warm by then): the slow-first schedule
+    cases += [(n, w, rnd.randint(0, 10**6), d, True) for d in (False, True) for w in ws[1:3] for n in ns if n >= 2]
     ev, bad = _sweep(cases)
     if bad:
         return {"failed": True, "input": bad, "observed": bad["observed"], "required": bad["required"]}
-    return {"failed": False, "evaluations": ev, "distinct": len(set((n, w, d) for n, w, _, d in cases)), "rule": "real parallel() on lists/dicts of sleeping jobs (random sleeps 0-10 ms), lengths x worker counts; result position i / key k must hold job i's / k's own result"}
+    return {"failed": False, "evaluations": ev, "distinct": len(set((c[0], c[1], c[3], len(c)) for c in cases)), "rule": "real parallel() on lists/dicts of sleeping jobs (random sleeps 0-10 ms, then a slow-first schedule: job 0 sleeps 0.4 s, the others 0), lengths x worker counts; result position i / key k must hold job i's / k's own result"}
